@@ -6,6 +6,7 @@ mod c01;
 mod c02;
 mod c03;
 mod c04;
+mod c05;
 mod c06;
 mod c07;
 mod c08;
@@ -45,6 +46,7 @@ fn main() {
         "C02" => c02::replay(&cases, &mut rep),
         "C03" => c03::replay(&cases, &mut rep),
         "C04" => c04::replay(&cases, &mut rep),
+        "C05" => c05::replay(&cases, &mut rep),
         "C06" => c06::replay(&cases, &mut rep),
         "C07" => c07::replay(&cases, &mut rep),
         "C08" => c08::replay(&cases, &mut rep),
